@@ -1,12 +1,14 @@
 #!/bin/bash
-# selftest.sh [-all] : self-test of the checker (NOT a property check).
-# Applies every patch of /verif/mutants (and, with -seeded, /verif/seeded/*/patch.diff) to a scratch copy of /repo
-# under /tmp (removed afterwards), one at a time, and compares the checks' verdicts with mutants/expected.json:
-#   breaking patches must be reported by each listed property check; benign patches (b*) must leave all 20 checks silent.
+# selftest.sh [-seeded] [-refactorings] [-only] : self-test of the checker (NOT a property check).
+# Applies every patch of /verif/mutants (with -seeded also /verif/seeded/*/patch.diff, with -refactorings also
+# /verif/refactorings/*/patch.diff; -only skips the mutants) to a scratch copy of /repo under /tmp (removed
+# afterwards), JOBS at a time (default 6), and compares the checks' verdicts with the expectations:
+#   breaking patches (mutants/expected.json, seeded/*/meta.json) must be reported by each listed property check;
+#   benign patches (b*) and the behaviour-preserving refactorings must leave all 20 checks silent.
 export GOFLAGS=-mod=mod GOPROXY=off GOSUMDB=off GOTOOLCHAIN=local GOWORK=off
-SIG=${SIGCHECK:-/verif/bin/sigcheck}
+export SIG=${SIGCHECK:-/verif/bin/sigcheck}
 cd /verif
-fail=0
+export all=$(seq -f "C%02g" 1 20 | tr '\n' ' ')
 run() { # patch props... -> prints fired list
   local patch=$1; shift
   local d=$(mktemp -d /tmp/sigself-XXXX) v=$(mktemp -d /tmp/sigselfv-XXXX)
@@ -20,29 +22,44 @@ run() { # patch props... -> prints fired list
   rm -rf $d $v
   echo "tests=$t fired:$fired"
 }
-all=$(seq -f "C%02g" 1 20)
-for patch in /verif/mutants/*.patch; do
-  name=$(basename $patch .patch)
-  exp=$(python3 -c "import json,sys; e=json.load(open('mutants/expected.json')); print(' '.join(e.get('$name',{}).get('expect',[])))")
-  kind=$(python3 -c "import json,sys; e=json.load(open('mutants/expected.json')); print(e.get('$name',{}).get('kind','?'))")
+one() { # kind name patch expected...
+  local kind=$1 name=$2 patch=$3; shift 3
   if [ "$kind" = "benign" ]; then
-    res=$(run $patch $all)
-    case "$res" in *"fired:") echo "ok    $name (benign) $res";; *) echo "FALSE-ALARM $name $res"; fail=1;; esac
+    local res=$(run $patch $all)
+    case "$res" in *"fired:") echo "ok    $name (benign) $res";; *) echo "FALSE-ALARM $name $res";; esac
   else
-    res=$(run $patch $exp)
-    missing=""
-    for p in $exp; do case "$res" in *" $p"*) ;; *) missing="$missing $p";; esac; done
-    if [ -z "$missing" ]; then echo "ok    $name $res"; else echo "MISSED $name expected:$exp $res"; fail=1; fi
+    local res=$(run $patch "$@") missing=""
+    for p in "$@"; do case "$res" in *" $p"*) ;; *) missing="$missing $p";; esac; done
+    if [ -z "$missing" ] && [ $# -gt 0 ]; then echo "ok    $name $res"; else echo "MISSED $name expected: $* $res"; fi
   fi
-done
-if [ "$1" = "-seeded" ]; then
-  for s in /verif/seeded/*/; do
-    own=$(python3 -c "import json; print(json.load(open('$s/meta.json'))['property'])")
-    want=$(python3 -c "import json; print(' '.join(json.load(open('$s/meta.json'))['checks_that_report_it']))")
-    res=$(run $s/patch.diff $want)
-    missing=""
-    for p in $want; do case "$res" in *" $p"*) ;; *) missing="$missing $p";; esac; done
-    if [ -z "$missing" ]; then echo "ok    $(basename $s) $res"; else echo "MISSED $(basename $s) expected:$want $res"; fail=1; fi
-  done
+}
+export -f run one
+jobs_file=$(mktemp /tmp/sigself-jobs-XXXX)
+mut=1; seeded=0; refac=0
+for a in "$@"; do case $a in -seeded) seeded=1;; -refactorings) refac=1;; -only) mut=0;; esac; done
+if [ $mut = 1 ]; then
+  python3 - >> $jobs_file <<'PY'
+import json,glob,os
+e=json.load(open('/verif/mutants/expected.json'))
+for p in sorted(glob.glob('/verif/mutants/*.patch')):
+    n=os.path.basename(p)[:-6]; x=e.get(n,{})
+    print(x.get('kind','?'), n, p, ' '.join(x.get('expect',[])))
+PY
 fi
-exit $fail
+if [ $seeded = 1 ]; then
+  python3 - >> $jobs_file <<'PY'
+import json,glob,os
+for s in sorted(glob.glob('/verif/seeded/*/')):
+    m=json.load(open(s+'meta.json'))
+    print('breaking', os.path.basename(s[:-1]), s+'patch.diff', ' '.join(m['checks_that_report_it']))
+PY
+fi
+if [ $refac = 1 ]; then
+  for s in /verif/refactorings/*/; do echo "benign $(basename $s) ${s}patch.diff"; done >> $jobs_file
+fi
+out=$(xargs -P ${JOBS:-6} -L 1 bash -c 'one "$@"' _ < $jobs_file | sort -k2)
+rm -f $jobs_file
+echo "$out"
+echo "$(echo "$out" | grep -c '^ok') ok, $(echo "$out" | grep -vc '^ok') not ok"
+case "$out" in *FALSE-ALARM*|*MISSED*|*PATCHFAIL*) exit 1;; esac
+exit 0
